@@ -222,6 +222,41 @@ def run(ctx):
     # only edges taken from a live connection are informative (after a connection error everything is discarded)
     live = lambda e: g['nodes'][e[0]]['ga'] != 'error'
     epaths, total = vf.edge_cover_paths(g, rng, want_edge=live, sample=sample, max_len=9)
+    # targeted paths next to the sampled cover: a request that declares the length of its body and then sends exactly that much, the last DATA
+    # frame plain / padded / (after a plain one) padding only - on a fresh connection and behind one earlier request
+    out_edges = {}
+    for ei, e in enumerate(g['edges']):
+        out_edges.setdefault(e[0], []).append(ei)
+    def step_to(node, pred):
+        for ei in out_edges.get(node, []):
+            e = g['edges'][ei]
+            if e[2] == 'ClientFrame' and pred(e[3]):
+                return ei
+        return None
+    forced = {}     # index in epaths -> {step index: form}
+    for init in g['init'][:1]:
+        e0 = step_to(init, lambda f: f[0] == 'SETTINGS' and f[4] == 'ok')
+        if e0 is None:
+            continue
+        n0 = g['edges'][e0][1]
+        for sid in (1, 3):
+            eh_ = step_to(n0, lambda f: f[0] == 'HEADERS' and f[1] == sid and f[2] is False and f[3] is True and f[4] == 'ok')
+            if eh_ is None:
+                continue
+            n1 = g['edges'][eh_][1]
+            ed_end = step_to(n1, lambda f: f[0] == 'DATA' and f[1] == sid and f[2] is True)
+            ed_mid = step_to(n1, lambda f: f[0] == 'DATA' and f[1] == sid and f[2] is False)
+            if ed_end is not None:
+                for form in (0, 1):
+                    forced[len(epaths)] = {2: form}
+                    epaths.append([e0, eh_, ed_end])
+            if ed_mid is not None:
+                n2 = g['edges'][ed_mid][1]
+                ed_end2 = step_to(n2, lambda f: f[0] == 'DATA' and f[1] == sid and f[2] is True)
+                if ed_end2 is not None:
+                    for forms in ((0, 1), (1, 2), (1, 0), (0, 2)):
+                        forced[len(epaths)] = {2: forms[0], 3: forms[1]}
+                        epaths.append([e0, eh_, ed_mid, ed_end2])
     paths = []
     unobservable = [0]
     for pi, ep in enumerate(epaths):
@@ -246,6 +281,8 @@ def run(ctx):
                     msv = src['ms']
                     flav = (msv[sid - 1] if isinstance(msv, list) else msv.get(str(sid))) if sid >= 1 else '-'
                     form = (pi * 7 + len(steps)) % 3
+                    if pi in forced and len(steps) in forced[pi]:
+                        form = forced[pi][len(steps)]
                     if form == 2 and flav in ('opensmall', 'hcrsmall'):
                         form = 1
                     st['f'].append(form)
@@ -254,7 +291,7 @@ def run(ctx):
                 st['finish'] = e[3][0]
             steps.append(st)
         if steps:
-            paths.append({'id': pi, 'steps': steps})
+            paths.append({'id': pi, 'steps': steps, 'declare': pi in forced})
     vin = os.path.join(ctx.scratch, 'c13_in.json')
     vout = os.path.join(ctx.scratch, 'c13_out.json')
     vf.write_graph(paths, vin)
